@@ -75,6 +75,8 @@ class TracingSerializer(GlueSerializer):
             for typ in type(obj).mro():
                 if typ in self.pins:
                     v = self.pins[typ]
+                    if callable(v):          # per-object pin: several versions of one type in one file
+                        v = v(obj)
                     used = self.trace.setdefault("savers", {})
                     key = "%s@%d" % (typ.__name__, v)
                     used[key] = used.get(key, 0) + 1
@@ -163,7 +165,55 @@ UNITS = [None, None, "m", "cm", "km", "s", "deg"]
 COLORS = ["#aa3311", "red", "#00ff7f", "0.35", "#123456", "blue"]
 ORDER_MODES = ["plain", "plain", "plain", "derived_early", "reorder_first", "reorder_middle", "reversed_chain",
                "first_overall"]
-COORD_KINDS = [None, None, "identity", "diagonal", "coupled_symmetric", "coupled_triangular", "permuted", "full", "wcs"]
+COORD_KINDS = [None, None, "identity", "diagonal", "coupled_symmetric", "coupled_triangular", "permuted", "full", "wcs",
+               "scaled"]
+DTYPE_VARIANTS = ["int8", "int16", "int32", "int64", "uint8", "uint16", "uint32", "uint64", "float32", "float64", ">f8",
+                  ">i4", "<f4", "bool"]
+LAYOUT_VARIANTS = ["contiguous", "transposed", "fortran", "reversed", "strided", "broadcast"]
+SCALES = [1e-10, 1e-3, 1.0, 1e6, 1e12]
+
+
+def scaled_affine(rng, nd):
+    """Affine coordinates whose terms span 1e-10 .. 1e12 (world values are compared relative to their size)."""
+    m = np.eye(nd + 1)
+    for i in range(nd):
+        m[i, i] = rng.choice([1e-10, 1e12, -3e6, 2.5e-4])
+        m[i, nd] = rng.choice([0.0, 1e12, -1e-10, 7e5])
+    if nd > 1:
+        m[0, 1] = rng.choice([0.0, 1e-10, 1e3])
+    return AffineCoordinates(m)
+
+
+def layout_variant(rng, arr, layout):
+    """The same values as `arr` held in memory in the requested way."""
+    arr = np.asarray(arr)
+    if layout == "transposed":
+        return np.ascontiguousarray(arr.T).T
+    if layout == "fortran":
+        return np.asfortranarray(arr)
+    if layout == "reversed":
+        return np.ascontiguousarray(arr[::-1])[::-1]
+    if layout == "strided":
+        big = np.zeros((arr.shape[0] * 2,) + arr.shape[1:], dtype=arr.dtype)
+        big[::2] = arr
+        return big[::2]
+    if layout == "broadcast":
+        row = arr[:1]
+        return np.broadcast_to(row, arr.shape)       # stride 0 along the first axis, read-only
+    return np.ascontiguousarray(arr)
+
+
+def dtype_column(rng, shape, dt):
+    n = int(np.prod(shape))
+    if dt == "bool":
+        a = np.array([rng.random() < 0.5 for _ in range(n)])
+    elif dt.lstrip("<>").startswith(("f", "float")):
+        a = np.array([rng.choice([0.0, -0.0, 1.5, -2.25, 3e-5, 7e4, float("nan"), float("inf")]) for _ in range(n)])
+    else:
+        info = np.iinfo(np.dtype(dt))
+        a = np.array([rng.choice([0, 1, 2, 3, info.max, info.min, info.max - 1]) for _ in range(n)], dtype=np.dtype(dt))
+    return a.astype(np.dtype(dt)).reshape(shape)
+
 
 
 def make_wcs(rng, nd):
@@ -220,7 +270,24 @@ def rand_meta(rng, poison=False):
             ("m_arr", np.arange(4) * 1.5, True), ("m_nan", float("nan"), True), ("m_empty", "", True),
             ("m_unicode", u"été ☃", True), ("m_obj", Unserialisable(), False),
             ("m_datetime", np.datetime64("2021-03-04T05:06:07"), True),
-            ("m_mixed", [1, "a", [2.5, None]], True), ("m_nested", {"a": {"b": [1, 2]}, "c": "d"}, True)]
+            ("m_mixed", [1, "a", [2.5, None]], True), ("m_nested", {"a": {"b": [1, 2]}, "c": "d"}, True),
+            # falsy / empty / extreme values
+            ("m_zero", 0, True), ("m_fzero", 0.0, True), ("m_negzero", -0.0, True), ("m_false", False, True),
+            ("m_emptylist", [], True), ("m_emptydict", {}, True), ("m_emptytuple", (), True),
+            ("m_inf", float("-inf"), True), ("m_tiny", 1e-300, True), ("m_huge", 1e300, True), ("m_bigint", 2 ** 70, True),
+            # numpy scalars of several widths (written through json_default's .item())
+            ("m_np_i64", np.int64(-7), True), ("m_np_u8", np.uint8(200), True), ("m_np_f32", np.float32(1.5), True),
+            ("m_np_f64", np.float64(2.5e-8), True), ("m_np_bool", np.bool_(True), True), ("m_np_str", np.str_("npstr"), True),
+            ("m_np_in_list", [np.int32(3), np.float64(0.25)], True),
+            # nested containers of every kind
+            ("m_deep", {"l": [{"t": (1, 2), "d": {"e": []}}, [[], [0]]], "n": None}, True),
+            ("m_tuple_str", ("a", 1, ("b", 2.5)), True), ("m_listofdict", [{"a": 1}, {"b": [2]}], True),
+            ("m_arr_in_list", [np.arange(3), "x"], True), ("m_arr_2d_f32", np.arange(6, dtype=np.float32).reshape(2, 3), True),
+            ("m_arr_noncontig", np.arange(10)[::3], True), ("m_arr_empty", np.zeros((0, 2)), True),
+            ("m_arr_bigendian", np.arange(3, dtype=">f8") + 0.5, True),
+            # keys that look like registry names / need quoting
+            ("st__key", "st__value", True), ("__main__", "main", True), ("d0", "a dataset label as key", True),
+            ("key with space", 1, True), ("", "empty key", True), ("7", "digit key", True)]
     k = rng.randint(0, 6)
     out = rng.sample(pool, k)
     if rng.random() < 0.04:     # rare: saving an astropy unit costs ~15 ms each time
@@ -258,6 +325,8 @@ def make_dataset(rng, idx, shape, opts, label=None, force=None):
     kw = {}
     if ckind == "wcs":
         kw["coords"] = make_wcs(rng, nd)
+    elif ckind == "scaled":
+        kw["coords"] = scaled_affine(rng, nd)
     elif ckind is not None:
         kw["coords"] = common.make_coords(rng, nd, ckind)
     label = label if label is not None else "d%d" % idx
@@ -285,6 +354,40 @@ def make_dataset(rng, idx, shape, opts, label=None, force=None):
     if rng.random() < 0.4 or force.get("k"):
         d.add_component(common.rand_ints(rng, shape, 0, 3), "k")
         info["numeric"].append("k")
+    # ---- column variants of the adversarial widening round (tallied through info["variants"])
+    variants = info["variants"] = []
+    if n >= 2 and rng.random() < 0.55:
+        # "s": a column at an extreme scale that holds two values agreeing to a relative 1e-9 (the "close pair");
+        # the *_close state recipes put their bounds between / exactly on them
+        scale = rng.choice(SCALES)
+        vals = np.array([rng.uniform(1.0, 9.0) for _ in range(n)]) * rng.choice([1.0, -1.0])
+        i, j = rng.sample(range(n), 2)
+        vals[j] = vals[i] * (1 + 1e-9)
+        vals = vals * scale
+        d.add_component(vals.reshape(shape), "s")
+        info["numeric"].append("s")
+        info["scale"] = scale
+        info["close"] = sorted([float(vals[i]), float(vals[j])])
+        variants.append("scale:%g" % scale)
+    if rng.random() < 0.5:
+        dt, layout = rng.choice(DTYPE_VARIANTS), rng.choice(LAYOUT_VARIANTS)
+        d.add_component(layout_variant(rng, dtype_column(rng, shape, dt), layout), "x")
+        info["numeric"].append("x")
+        info["x_dtype"] = dt
+        variants += ["dtype:" + dt, "layout:" + layout]
+    if rng.random() < 0.12:
+        # two different columns under one label: the serializer's name registry has to keep them apart
+        d.add_component(common.rand_ints(rng, shape, 0, 9), "twin")
+        d.add_component(common.rand_floats(rng, shape, special=False), "twin")
+        variants.append("duplicate_component_label")
+    if 1 in shape:
+        variants.append("unit_length_axis")
+    for e in range(force.get("extra_columns", 0)):
+        d.add_component(common.rand_ints(rng, shape, 0, 6) if e % 2 else common.rand_floats(rng, shape, special=False), "col%02d" % e)
+    if force.get("extra_columns"):
+        variants.append("many_columns")
+    if n >= 100:
+        variants.append("rows>=100")
     if nd == 1 and (rng.random() < 0.7 or force.get("cat")):
         r = rng.random()
         if force.get("cat") == "all_present":
@@ -310,7 +413,10 @@ def make_dataset(rng, idx, shape, opts, label=None, force=None):
             info["custom_categories"] = "with_absent"
         info["cat"].append("c")
         if rng.random() < 0.5:
-            d.add_component(common.rand_cats(rng, n, cats=("x", "yy", "a")), "c2")
+            cats2 = rng.choice([("x", "yy", "a"), ("a", "ab", "abc", "abcdefghij"), ("1", "10", "2"), ("", " ", "a ")])
+            d.add_component(common.rand_cats(rng, n, cats=cats2), "c2")
+            if cats2[0] != "x":
+                variants.append("category_labels:" + ("prefixes" if cats2[0] == "a" else "digits" if cats2[0] == "1" else "blank"))
             info["cat"].append("c2")
     if rng.random() < 0.35:
         base = np.datetime64("2020-01-01T00:00:00")
@@ -460,6 +566,10 @@ def att_pool(ds, rng):
     out += [("pixel", c) for c in d.pixel_component_ids]
     out += [("world", c) for c in d.world_component_ids]
     out += [("derived:" + DERIVED_FAMILY[k], d.id[n]) for n, k in ds.info["derived"].items()]
+    if "s" in ds.info["numeric"]:
+        out.append(("scaled", d.id["s"]))
+    if "x" in ds.info["numeric"]:
+        out.append(("dtype:" + ds.info["x_dtype"], d.id["x"]))
     return out
 
 
@@ -467,7 +577,10 @@ DERIVED_FAMILY = {"binary": "arithmetic", "binary_nested": "arithmetic", "functi
                   "multi": "function", "parsed": "parsed"}
 
 
-LEAF_KINDS = ["inequality", "inequality_cidcid", "inequality_link", "range", "multirange", "roi", "roi", "roi_nd",
+SPECIAL_LEAVES = ["range_close", "inequality_close", "multirange_close", "roi_close", "numpy_params", "multirange_empty",
+                  "range_degenerate", "cat_roi_empty", "element_special", "mask_special", "slice_special",
+                  "inequality_extreme"]
+LEAF_KINDS = SPECIAL_LEAVES + ["inequality", "inequality_cidcid", "inequality_link", "range", "multirange", "roi", "roi", "roi_nd",
               "roi_3d", "cat_roi", "cat_2d", "cat_multirange", "category", "mask", "slice", "element", "floodfill",
               "pixel", "parsed", "empty"]
 
@@ -481,8 +594,14 @@ def leaf_domain_ok(kind, ds, k=0, top=True, opts=None):
     columns ahead of the coordinates were in that list until they were repaired.)  `opts["unrestricted"]` lifts that."""
     info = ds.info
     opts = opts or {}
-    if kind in ("cat_roi", "cat_2d", "cat_multirange", "category"):
+    if kind in opts.get("exclude_leaves", ()):
+        return False
+    if kind in ("cat_roi", "cat_2d", "cat_multirange", "category", "cat_roi_empty"):
         return bool(info["cat"])
+    if kind in ("range_close", "inequality_close", "multirange_close", "roi_close"):
+        return "s" in info["numeric"]
+    if kind == "slice_special":
+        return top and k == 0
     if opts.get("unrestricted"):
         return True
     if kind in ("slice", "pixel"):
@@ -496,6 +615,104 @@ def make_leaf(rng, kind, ds, opts):
     """-> (state, sig) where sig is a small structural dict (class, roi class, pretransform, attribute kind)."""
     d = ds.data
     pool = att_pool(ds, rng)
+    if kind in ("range_close", "inequality_close", "multirange_close", "roi_close"):
+        lo_v, hi_v = ds.info["close"]
+        mid = lo_v + (hi_v - lo_v) / 2            # strictly between the two values that agree to 1e-9
+        big = abs(hi_v) * 10 + 1
+        s_ = d.id["s"]
+        if kind == "range_close":
+            lo, hi = rng.choice([(mid, big), (-big, mid), (lo_v, lo_v), (hi_v, big), (lo_v, mid)])
+            return S.RangeSubsetState(lo, hi, s_), {"state": "RangeSubsetState", "att": "scaled", "bounds": "close_pair"}
+        if kind == "inequality_close":
+            opn, op = rng.choice(INEQ_OPS)
+            const = rng.choice([mid, lo_v, hi_v])
+            return S.InequalitySubsetState(s_, const, op), {"state": "InequalitySubsetState", "op": opn, "form": "cid_const",
+                                                          "att": "scaled", "bounds": "close_pair"}
+        if kind == "multirange_close":
+            pairs = rng.choice([[(lo_v, lo_v)], [(mid, big)], [(-big, lo_v), (hi_v, hi_v)], [(hi_v, big), (-big, -big / 2)]])
+            return S.MultiRangeSubsetState(pairs, s_), {"state": "MultiRangeSubsetState", "att": "scaled", "bounds": "close_pair"}
+        rk = rng.choice(["rect", "xrange", "range_x"])
+        if rk == "rect":
+            roi = R.RectangularROI(xmin=mid, xmax=big, ymin=-10.0, ymax=10.0)
+        elif rk == "xrange":
+            roi = R.XRangeROI(min=-big, max=mid)
+        else:
+            roi = R.RangeROI("x", min=lo_v, max=mid)
+        return S.RoiSubsetState(s_, d.id["w"], roi), {"state": "RoiSubsetState", "roi": type(roi).__name__, "roi_kind": rk,
+                                                       "pretransform": "none", "att": "scaled/value", "bounds": "close_pair"}
+    if kind == "numpy_params":
+        # parameters that are numpy scalars / integers equal by value to floats
+        ak, cid = rng.choice(pool)
+        which = rng.choice(["range_f32", "range_i64", "range_int_vs_float", "ineq_i64", "ineq_f32", "ineq_bool", "category_i8"])
+        if which == "category_i8" and not ds.info["cat"]:
+            which = "ineq_i64"
+        if which == "range_f32":
+            st = S.RangeSubsetState(np.float32(-1.5), np.float32(2.25), cid)
+        elif which == "range_i64":
+            st = S.RangeSubsetState(np.int64(-1), np.int64(3), cid)
+        elif which == "range_int_vs_float":
+            st = S.RangeSubsetState(1, 3.0, cid)
+        elif which == "ineq_i64":
+            st = S.InequalitySubsetState(cid, np.int64(2), operator.ge)
+        elif which == "ineq_f32":
+            st = S.InequalitySubsetState(cid, np.float32(0.5), operator.lt)
+        elif which == "ineq_bool":
+            st = S.InequalitySubsetState(cid, True, operator.eq)
+        else:
+            st = S.CategorySubsetState(d.id[ds.info["cat"][0]], np.array([0, 2], dtype=np.int8))
+        return st, {"state": type(st).__name__, "att": ak, "params": which}
+    if kind == "multirange_empty":
+        ak, cid = rng.choice(pool)
+        return S.MultiRangeSubsetState([], cid), {"state": "MultiRangeSubsetState", "att": ak, "params": "no_pairs"}
+    if kind == "range_degenerate":
+        ak, cid = rng.choice(pool)
+        lo, hi = rng.choice([(1, 1), (0.0, 0.0), (2.0, -2.0), (0, 0.0), (float("-inf"), float("inf")), (float("nan"), 1.0)])
+        return S.RangeSubsetState(lo, hi, cid), {"state": "RangeSubsetState", "att": ak, "params": "degenerate"}
+    if kind == "cat_roi_empty":
+        c = d.id[rng.choice(ds.info["cat"])]
+        return S.CategoricalROISubsetState(att=c, roi=R.CategoricalROI([])), {"state": "CategoricalROISubsetState",
+                                                                             "roi": "CategoricalROI", "params": "no_categories"}
+    if kind == "element_special":
+        size = d.size
+        which = rng.choice(["negative", "duplicate", "unordered", "empty", "slice", "single_int"])
+        if which == "negative":
+            idx = [-1] if d.ndim == 1 else tuple(np.array([-1]) for _ in d.shape)
+        elif which == "duplicate":
+            idx = [0, 0, size - 1] if d.ndim == 1 else tuple(np.array([0, 0]) for _ in d.shape)
+        elif which == "unordered":
+            idx = [size - 1, 0] if d.ndim == 1 else tuple(np.array([n_ - 1, 0]) for n_ in d.shape)
+        elif which == "empty":
+            idx = np.array([], dtype=int) if d.ndim == 1 else tuple(np.array([], dtype=int) for _ in d.shape)
+        elif which == "slice":
+            idx = slice(0, max(1, d.shape[0] // 2))
+        else:
+            idx = 0
+        return S.ElementSubsetState(idx, None), {"state": "ElementSubsetState", "with_data": False, "params": which}
+    if kind == "mask_special":
+        which = rng.choice(["all_false", "all_true", "non_contiguous", "fortran"])
+        if which == "all_false":
+            m = np.zeros(d.shape, dtype=bool)
+        elif which == "all_true":
+            m = np.ones(d.shape, dtype=bool)
+        else:
+            m = np.array([rng.random() < 0.5 for _ in range(d.size)]).reshape(d.shape)
+            m = layout_variant(rng, m, "strided" if which == "non_contiguous" else "fortran")
+        return S.MaskSubsetState(m, d.pixel_component_ids), {"state": "MaskSubsetState", "params": which}
+    if kind == "slice_special":
+        which = rng.choice(["negative", "backward", "empty", "step"])
+        sl = []
+        for n_ in d.shape:
+            sl.append({"negative": slice(-max(1, n_ // 2), None), "backward": slice(None, None, -1),
+                       "empty": slice(n_, n_), "step": slice(0, None, 2)}[which])
+        if d.ndim > 1 and rng.random() < 0.5:
+            sl[-1] = slice(None)
+        return S.SliceSubsetState(d, sl), {"state": "SliceSubsetState", "params": which}
+    if kind == "inequality_extreme":
+        opn, op = rng.choice(INEQ_OPS)
+        ak, cid = rng.choice(pool)
+        const = rng.choice([0, 0.0, -0.0, 1e-300, 1e300, float("inf"), float("-inf"), float("nan"), 2 ** 62])
+        return S.InequalitySubsetState(cid, const, op), {"state": "InequalitySubsetState", "op": opn, "form": "cid_const",
+                                                        "att": ak, "params": "extreme_const"}
     if kind == "inequality":
         opn, op = rng.choice(INEQ_OPS)
         ak, cid = rng.choice(pool)
@@ -843,7 +1060,7 @@ def build_session(rng, opts=None, workdir=None):
     base = common.rand_shape(rng, 3, 4, 2)
     for i in range(nds):
         r = rng.random()
-        if r < 0.35:
+        if r < 0.35 or opts.get("same_shapes"):
             shapes.append(base)
         elif r < 0.7:
             shapes.append((rng.randint(2, 6),))
@@ -851,6 +1068,17 @@ def build_session(rng, opts=None, workdir=None):
             shapes.append(common.rand_shape(rng, 3, 4, 2))
     collide = opts.get("label_collisions", True) and rng.random() < 0.25
     force = [dict(opts.get("force_data", {})) for _ in range(nds)]
+    if opts.get("big"):
+        # scale thresholds: >= 100 rows with duplicates (beyond numpy's small-array paths), dozens of columns and groups
+        # (hundreds of registered names)
+        shapes = [(rng.randint(100, 400),) for _ in range(nds)]
+        for f in force:
+            f["extra_columns"] = rng.randint(20, 40)
+        opts["min_groups"], opts["max_groups"] = 15, 25
+    if not opts.get("big") and not want_join and want_link not in ("JoinLink", "WCSLink", "LinkAligned") \
+            and not opts.get("same_shapes") and rng.random() < 0.12:
+        k = rng.randrange(nds)
+        shapes[k] = rng.choice([(1,), (1, 1), (1, 3), (2, 1, 2)])      # single-element / unit-length axes
     if want_leaf in ("cat_roi", "cat_2d", "cat_multirange", "category"):
         shapes[0] = (rng.randint(2, 6),)
         force[0]["cat"] = opts.get("cat_mode", True)
@@ -934,7 +1162,7 @@ def build_session(rng, opts=None, workdir=None):
             if ok:
                 desc["joins"].append({"shape": shape, "between": [i, j]})
     # subset groups
-    ngroups = rng.randint(0, opts.get("max_groups", 4))
+    ngroups = rng.randint(opts.get("min_groups", 0), max(opts.get("min_groups", 0), opts.get("max_groups", 4)))
     if desc["joins"] and ngroups == 0:
         ngroups = 1
     for g in range(ngroups):
@@ -970,6 +1198,23 @@ def build_session(rng, opts=None, workdir=None):
         dc.remove(ses.ds[last].data)
         desc["removed"] = last
         desc["history"] = "remove_last:" + ("join_on_key" if desc["joins"] else "JoinLink")
+    if opts.get("zero_size") or (not probe and not history and rng.random() < 0.04):
+        # a dataset without any element, appended after the groups exist, with a selection of its own
+        zshape = rng.choice([(0,), (0, 3), (2, 0)])
+        z = Data(label="zero_size")
+        z.add_component(np.zeros(zshape), "v")
+        z.add_component(np.zeros(zshape), "w")
+        z.add_component(np.zeros(zshape, dtype=int), "i")
+        z.add_component_link(z.id["w"] * 2, "der_binary")
+        dc.append(z)
+        zi = {"label": "zero_size", "shape": list(zshape), "coords": None, "numeric": ["v", "w", "i"], "cat": [], "datetime": [],
+              "derived": {"der_binary": "binary"}, "units": {}, "meta": [], "order_mode": "plain", "variants": ["zero_size"]}
+        ses.ds.append(DS(z, zi))
+        desc["data"].append(zi)
+        dc.new_subset_group(subset_state=z.id["w"] > 0, label="on_zero_size")
+        desc["groups"].append({"on": len(ses.ds) - 1, "sig": {"state": "InequalitySubsetState", "op": "gt", "form": "cid_const",
+                                                             "att": "value", "leaf_kind": "inequality", "nested": False},
+                               "label": "on_zero_size", "styled": False})
     # a named leaf kind, once at top level and once below a composite (where the general restrictions admit it)
     if want_leaf:
         cand = [k for k in range(nds) if leaf_domain_ok(want_leaf, ses.ds[k], k, True, opts)]
@@ -1031,6 +1276,21 @@ def build_session(rng, opts=None, workdir=None):
             pg = (k, S.RoiSubsetState(x, y, make_roi(rng, "point")), {"state": "RoiSubsetState", "roi": "PointROI",
                                                                       "roi_kind": "point", "pretransform": "none",
                                                                       "leaf_kind": "roi", "nested": False})
+        elif probe == "data:dask_component":
+            import dask.array as da
+            from glue.core.component import DaskComponent
+            k = rng.randrange(nds)
+            dd = ses.ds[k].data
+            dd.add_component(DaskComponent(da.from_array(np.arange(dd.size, dtype=float).reshape(dd.shape), chunks=2)), "dask_col")
+        elif probe == "data:indexed_data":
+            from glue.core.data_derived import IndexedData
+            src = [h.data for h in ses.ds if h.data.ndim >= 2]
+            if src:
+                idx = [None] * src[0].ndim
+                idx[0] = 0
+                dc.append(IndexedData(src[0], tuple(idx)))
+            else:
+                desc["probe_not_applicable"] = True
         elif probe == "meta:nested_unserialisable":
             k = rng.randrange(nds)
             ses.ds[k].data.meta["m_objlist"] = [Unserialisable()]
@@ -1047,7 +1307,7 @@ def build_session(rng, opts=None, workdir=None):
     return ses
 
 
-PROBES = ["state:slice_nested", "state:slice_later_dataset", "state:floodfill_later_dataset",
+PROBES = ["data:dask_component", "data:indexed_data", "state:slice_nested", "state:slice_later_dataset", "state:floodfill_later_dataset",
           "link:MultiLink", "link:ComponentLink_lambda", "roi:PointROI", "meta:nested_unserialisable", "style:preferred_cmap"]
 PROBES_NEED_TWO = ["state:slice_later_dataset", "state:floodfill_later_dataset", "link:MultiLink", "link:ComponentLink_lambda"]
 
@@ -1110,8 +1370,12 @@ def canon_meta(v):
         return ("map", {k: canon_meta(x) for k, x in v.items()})
     if isinstance(v, (bool, np.bool_)):
         return ("bool", bool(v))
+    if isinstance(v, (int, np.integer)) and abs(int(v)) > 2 ** 52:
+        return ("bigint", int(v))
     if isinstance(v, (int, float, np.integer, np.floating)):
         return ("num", float(v))
+    if isinstance(v, str):
+        return ("lit", str(v))
     return ("lit", v)
 
 
